@@ -14,7 +14,7 @@ Q_NOTE = ('Trusted base: the harness (engines/common/*.h: long-double reference 
 CLAIMS = {
     'C01': dict(cat='exploration', tech='bounded-exhaustive input/configuration enumeration against a long-double reference model (+ preemption-bounded schedule exploration, Engine S)',
                 text='Every 0/1 pattern up to n=4 (x storage orientation, nrhs 0..2, ordering, nprocs incl. > n, panel/relax/supernode grid, 4 precisions) is driven through the simple driver; '
-                     'info, the componentwise residual bound of the statement (evaluated in long double from the returned factors) and bit-identity of A are checked on every run.', ref='5 C01'),
+                     'info, the componentwise residual bound of the statement (evaluated in long double from the returned factors) and bit-identity of A are checked on every run; B is also passed with leading dimension > n and several columns (padding rows must stay untouched).', ref='5 C01, 10'),
     'C02': dict(cat='exploration', tech='bounded-exhaustive enumeration of patterns x every forced pivot order x option grid against a long-double reference elimination',
                 text='All 0/1 patterns n<=4 x all n! forced pivot orders x thresholds x panel/relax/supernode/blocking grid x kernels (built-in, OpenBLAS) x 4 precisions; '
                      'residual |PrAPc-LU| <= gamma_n|L||U|, multiplier bound and the pivot policy (replayed on a reference elimination with tie bands) on every run with info=0.', ref='5 C02'),
@@ -26,10 +26,10 @@ CLAIMS = {
                 note='Trusted base: as C03. The fruitless-poll rule parks a poller until the task queue changes; it is part of the scheduler model.'),
     'C05': dict(cat='exploration', tech='bounded-exhaustive enumeration under ASan/UBSan with a slot-bound monitor on every L-value allocation (source hooks)',
                 text='The C02 enumeration (all patterns n<=4, every forced pivot order = adversarial pivot sequences, orderings 0..3, static/dynamic supernode storage) runs under ASan+UBSan; '
-                     'every allocation from an H-supernode slot is checked against the slot end reconstructed from the preset map.', ref='5 C05'),
+                     'every allocation from an H-supernode slot is checked against the slot end reconstructed from the preset map. Engine S additionally explores every interleaving (bound 1-2) of the catalogue, including jobs where the U estimate sp_ienv(7) runs out while two threads gather U columns (K14): each execution must end in success or in the library abort path, never in an out-of-bounds write.', ref='5 C05, 10'),
     'C06': dict(cat='exploration', tech='bounded-exhaustive enumeration of singular inputs in forked children with crash classification, judged by symbolic elimination',
                 text='Every structurally singular pattern n<=3 (n=4 with explicit zero column/row), explicit zeros, exact cancellation, both drivers, nprocs 1..2, 4 precisions; '
-                     'outcome must be a normal return with 0<info<=n at a position consistent with symbolic elimination, B/X untouched, objects destroyable.', ref='5 C06'),
+                     'outcome must be a normal return with 0<info<=n at a position consistent with symbolic elimination, B/X untouched, objects destroyable; expert driver also with diag_pivot_thresh=0. Engine S (K15): matrices with two zero-pivot columns met by different threads - in EVERY interleaving (bound 1-2, 2-3 threads) info equals the one-thread result.', ref='5 C06, 10'),
     'C07': dict(cat='exploration', engine='mcexpert', tech='bounded-exhaustive enumeration of patterns x scalings x every trans/storage/fact/equed combination of the expert driver against long-double references',
                 text='Every nonsingular pattern n<=3 (n=4 thorough) x scalings forcing each equed outcome x trans {N,T,C} x {NC,NR} x {DOFACT,EQUILIBRATE,FACTORED} x nrhs x leading dimensions x 4 precisions: info in {0,n+1}, X solves the ORIGINAL system (componentwise backward error), A_out/B_out equal the scalings the flag reports, padding untouched.', ref='5 C07'),
     'C11': dict(cat='exploration', engine='mcexpert', tech='bounded-exhaustive enumeration over an exponent alphabet (all small matrices) for ?gsequ/?laqgs, and of the driver wiring, against exact references',
@@ -39,27 +39,27 @@ CLAIMS = {
     'C13': dict(cat='exploration', engine='mcexpert', tech='bounded-exhaustive enumeration + graded family against quad-precision exact solutions',
                 text='Returned berr equals the recomputed componentwise backward error of the returned X (on the equilibrated system), is O((n+1)eps) for cond<1/sqrt(eps); 40*ferr dominates the true relative error against the quad-precision exact solution of the original system; all trans/equed/precision combinations.', ref='5 C13'),
     'C14': dict(cat='fault_enumeration', engine='mcfault', tech='exhaustive fault enumeration: every allocation index k of every driver call, every user-workspace size, with crash classification in forked children',
-                text='For each driver call of a menu (4 matrices x 3 entry paths x 1-4 threads x 4 precisions): request k and all later fail for EVERY k up to the measured number of requests (and single failures); every lwork in 4-byte steps up to 1.25 x the queried estimate with red zones; lwork=-1; too-small tunable estimates. Outcome must be info>n or the abort path with a diagnostic, never a memory error, a hang, a bogus info or success; with a sufficient buffer L/U lie inside it and results equal the internal-memory run; a query creates no thread.', ref='5 C14',
+                text='For each driver call of a menu (4 matrices x 3 entry paths x 1-4 threads x 4 precisions): request k and all later fail for EVERY k up to the measured number of requests (and single failures); every lwork in 4-byte steps up to 1.25 x the queried estimate with red zones (also with the smallest sufficient sp_ienv(7)/(8), so that the window where L/U fit but the work arrays do not is reached); lwork=-1; every too-small value 1..60 of each tunable estimate sp_ienv(6)/(7)/(8) alone and together; the recovery path of MemInit (estimates tight after the halving x every single failing request). Outcome must be info>n or the abort path with a diagnostic, never a memory error, a hang, a bogus info or success; with a sufficient buffer L/U lie inside it and results equal the internal-memory run; a query creates no thread.', ref='5 C14',
                 note='Trusted base: allocation failure injected at the renamed malloc level; outcome classes from exit status + captured stderr; ASan/UBSan. Threads run inline here; K12 jobs of Engine S cover user workspace under real interleavings.'),
     'C15': dict(cat='exploration', engine='mcargs', tech='bounded-exhaustive enumeration of every single and every ordered pair of documented-precondition violations on legal baselines, with bytewise side-effect and heap-balance oracles',
                 text='8 routines x 20 legal baseline calls (real factors) x all 1258 single violations and 99218 ordered pairs, 4 precisions: info = -i and one xerbla_ call for the documented position of the first offender, every object reachable from the arguments bytewise unchanged, no allocation retained; crashes attributed per case.', ref='5 C15'),
     'C08': dict(cat='exploration', engine='mchist', tech='bounded-exhaustive enumeration of call histories (operation sequences up to a depth) against reference oracles after every call',
-                text='Every valid history up to depth 4 (thorough 5) over {first factor, refactor(values, usepr, threads), solve-with-existing-factors(trans), destroy} on 3 patterns x value sets x internal/user workspace x 4 precisions; after every call the C02/C09 oracles for the values current at that call, pivot-reuse policy, solve residual, and bitwise immutability of A/L/U/permutations around solves.', ref='5 C08'),
+                text='Every valid history up to depth 4 (thorough 5) over {first factor, refactor(values, usepr, threads), solve-with-existing-factors(trans), destroy} on 4 patterns (one whose supernode count depends on the pivots) x value sets x internal/user workspace x 4 precisions; after every call the C02/C09 oracles for the values current at that call, pivot-reuse policy, solve residual, and bitwise immutability of A/L/U/permutations around solves.', ref='5 C08'),
     'C17': dict(cat='exploration', engine='mchist', tech='bounded-exhaustive enumeration of call histories and driver outcomes against an allocator model (plain map of live blocks)',
                 text='All library allocations are observable (malloc/free renamed at compile time). For every history of C08 and every driver call outcome (success, singular, workspace query) on all patterns n<=3: live blocks after refactor/solve equal those after the first factorization; after the documented clean-up the heap equals its pre-history state.', ref='5 C17'),
     'C18': dict(cat='exploration', engine='mchist', tech='bounded-exhaustive enumeration of (prefix history, probe) pairs with a differential oracle against a fresh process',
-                text='After every history of the C08 alphabet (depth<=4) and after singular / failed-allocation / expert-driver / other-size calls, a fixed probe (first factorization + solves) must produce bit-identical L, U, permutations and solutions to the same probe in a freshly forked process.', ref='5 C18'),
+                text='After every history of the C08 alphabet (depth<=4) and after singular / failed-allocation / expert-driver / other-size calls, a fixed probe (first factorization + solves) must produce bit-identical L, U, permutations and solutions to the same probe in a freshly forked process. The reverse-communication estimator ?lacon_ (function-static state): every 2x2/3x3 small-integer matrix estimated after a representative of every iteration class and in reverse catalogue order, bit-compared with the estimate made alone in a fresh process (engines/mclacon).', ref='5 C18, 10'),
     'C19': dict(cat='exploration', engine='mckern', tech='bounded-exhaustive enumeration of small matrices/factors x the full argument grid of each kernel against dense long-double definitions',
                 text='sp_?gemv / sp_?gemm on all patterns m,n<=3 x op {N,T,C} x alpha/beta incl. 0,1 x increments +-1,+-2 x leading dimensions (padding checked); sp_?trsv for all (uplo,trans,diag) on the real supernodal factors of every nonsingular pattern n<=4 x factor options; ?langs all norms; row-to-column conversion, copy and permuted-view constructors; 4 precisions; each call fork-isolated.', ref='5 C19'),
     'C10': dict(cat='exploration', engine='mcorder', tech='bounded-exhaustive enumeration of all small patterns x orderings against a brute-force symbolic-Cholesky reference',
                 text='All 0/1 patterns m,n<=4 (thorough: all full-diagonal 5x5) x get_perm_c 0..3 x symmetric mode x every caller ordering: bijection, A*Pc shares and does not alter A, ordering changed only by a postorder, reported etree = etree of (A*Pc)^T(A*Pc) (or of Pc(A+A^T)Pc^T) with contiguous subtrees, partition into consecutive blocks.', ref='5 C10'),
     'C20': dict(cat='exploration', engine='mcread', tech='bounded-exhaustive enumeration of small matrices x file layouts written by an independent writer, read back through stdin',
-                text='All matrices m,n<=3 x every integer/real edit descriptor family, exponent letters, header variants, RHS line, type codes, for ?readhb, ?readrb, ?readmt in 4 precisions: same dimensions, nnz and (row, col, value) set with values equal to the printed decimals; hangs at end-of-file and crashes attributed per file.', ref='5 C20'),
+                text='All matrices m,n<=3 x every integer/real edit descriptor family, exponent letters, header variants, RHS line, type codes, for ?readhb, ?readrb, ?readmt in 4 precisions: plus 7 full matrices with 10-30 entries (header card counts 1..30); same dimensions, nnz and (row, col, value) set with values equal to the printed decimals; hangs at end-of-file and crashes attributed per file.', ref='5 C20'),
     'C09': dict(cat='exploration', tech='bounded-exhaustive enumeration; the statement implemented literally as a checker on every returned factorization',
                 text='wellformed(L,U,perm_r,perm_c) checks bijections, supernode partition/maps, row-list shape, U placement, extent disjointness, nnz fields and dependency order on every '
-                     'successful factorization of the C02 enumeration (first-time; refactored ones in C08).', ref='5 C09'),
+                     'successful factorization of the C02 enumeration, on every execution of the Engine S catalogue (bound 1 quick / 2 thorough), and after every first-time and REFACTORED factorization of every call history up to depth 3 (thorough 4) on the 4 patterns of C08.', ref='5 C09, 10'),
     'C16': dict(cat='exploration', tech='bounded-exhaustive enumeration of full-diagonal patterns in symmetric mode against reference + slot monitor',
-                text='All 4096 full-diagonal patterns n<=4 with diagonally dominant values, SymmetricMode, MMD(A^T+A), u=0, static/dynamic storage, 1-2 threads, 4 precisions: C02 oracles, perm_r == perm_c, stored values within the Cholesky reservation.', ref='5 C16'),
+                text='All 4096 full-diagonal patterns n<=4 with diagonally dominant values, SymmetricMode, MMD(A^T+A), u=0, static/dynamic storage, 1-2 threads, 4 precisions: C02 oracles, perm_r == perm_c, stored values within the Cholesky reservation; symmetric patterns n=5 (6 thorough). The reservation itself at its source (engines/mcsym): for EVERY symmetric pattern with full diagonal n<=6 (7 thorough) x 4 orderings, colcnt_h[j] >= exact column count of the symbolic Cholesky factor of Pc(A+A^T)Pc^T for every column, part_super_h fundamental, etree exact.', ref='5 C16, 10'),
 }
 
 
@@ -95,8 +95,10 @@ def main():
             'add_only': True,
         },
         'engines': [
+            {'name': 'mcsym', 'path': 'engines/mcsym', 'serves_properties': ['C16'], 'kind_free_text': 'Engine Q: symmetric-mode column-count prediction (sp_colorder/cholnzcnt) vs symbolic Cholesky by definition, all symmetric patterns'},
+            {'name': 'mclacon', 'path': 'engines/mclacon', 'serves_properties': ['C18'], 'kind_free_text': 'Engine Q: hidden state of the reverse-communication norm estimator ?lacon_, exhaustive small-integer catalogue, fresh-process differential oracle'},
             {'name': 'mcproto', 'path': 'engines/mcproto', 'serves_properties': ['C03', 'C04'], 'kind_free_text': 'Engine P: explicit-state breadth-first search of the panel-scheduler protocol over all postordered forests; transitions call the real scheduler functions on shadow structures; Engine S replays every explored execution on this model'},
-            {'name': 'mcsched', 'path': 'engines/mcsched', 'serves_properties': ['C01', 'C02', 'C03', 'C04', 'C05', 'C09'],
+            {'name': 'mcsched', 'path': 'engines/mcsched', 'serves_properties': ['C01', 'C02', 'C03', 'C04', 'C05', 'C06', 'C09'],
              'kind_free_text': 'Engine S: stateless preemption-bounded DFS over thread interleavings of the real factorization (baton scheduler over renamed pthread calls + source hooks), monitors and end-of-execution oracles in every execution, crash-resumable'},
             {'name': 'mcexpert', 'path': 'engines/mcexpert', 'serves_properties': ['C07', 'C11', 'C12', 'C13'], 'kind_free_text': 'Engine Q: expert-driver enumeration (trans x storage x fact x equed x scalings) against long-double / quad references'},
             {'name': 'mcargs', 'path': 'engines/mcargs', 'serves_properties': ['C15'], 'kind_free_text': 'Engine Q: illegal-argument enumeration (singles and ordered pairs) with side-effect / leak oracles'},
